@@ -83,8 +83,21 @@ claim('C14', 'exploration', TECH + ': seeded edit histories on the real model ag
       'get_links_for_node, to_graph and usage record is compared with the mirror; a refused operation must raise and leave the state digest (to_dict + usage maps + typed sets) unchanged.',
       E2_NOTE, 'DESIGN.md section 5 (C14)')
 
+claim('C13', 'exploration', TECH + ': dict/JSON restarts placed inside seeded edit histories; the history continues on the reloaded model',
+      'At every dict/JSON restart of a history (all element kinds, several demands, vertices on every link type, tags, quality and mixing attributes, per-junction PDD, leaks, '
+      'sources, curves, simple controls and rules with AND/OR/ELSE/priorities, option changes in every group) the dictionary of the re-created model must equal the original '
+      'exactly after the stated normalisations, from_dict(d, append=empty model) must equal from_dict(d), and later operations (incl. INP writes) run on the reloaded model.',
+      E2_NOTE + ' The equality itself is a function of the model; what the simulation adds is the population of models reached by histories, the placement of the restart and the continuation after it (DESIGN.md 5).',
+      'DESIGN.md section 5 (C13)')
+claim('C12', 'exploration', TECH + ': INP(units, version) restarts placed inside seeded edit histories; the history continues on the reloaded model',
+      'At every INP restart (10 unit systems x versions 2.0/2.2, seeded) the re-read model must equal the written one on everything the statement lists (structural comparison of '
+      'the SI dictionaries, floats to rtol 1e-5 + 3e-7; names the format does not store and the excluded WNTR-only settings are left out), the file written from the second reload '
+      'must equal the one written from the first and the second reload must equal the first to 1e-9; later operations run on the reloaded model.',
+      E2_NOTE + ' Comparison uses to_dict of both models (WNTR code on both sides; C13 and the mirror views of C14 check to_dict independently).',
+      'DESIGN.md section 5 (C12)')
+
 _PENDING = 'check not built yet in this session (planned, see DESIGN.md section 11); not claimed until it runs clean'
-for _p in ['C03', 'C12', 'C13', 'C15']:
+for _p in ['C03', 'C15']:
     NOT_APPLICABLE[_p] = _PENDING
 NOT_APPLICABLE['C17'] = 'pure total functions of (value, unit, parameter): no state, clock, I/O or failure mode for a schedule or fault to act on; deterministic simulation has nothing to vary (DESIGN.md section 7)'
 NOT_APPLICABLE['C18'] = 'pure function of (graph, valve layer) returning a labelling: nothing evolves, fails or persists (DESIGN.md section 7)'
